@@ -112,7 +112,18 @@ ASCII_PRED = {
 }
 
 
+def _deconst(n):
+    """a named constant stands for its initialiser (`const PUNCT: &str = ".-_"`)"""
+    n0 = ir.unparen(ir.strip(n)) if n is not None else n
+    k_ = 0
+    while n0 is not None and n0.get("k") == "path" and n0.get("r") == "def" and n0.get("q") in ir.CONST_BODIES and k_ < 3:
+        n0 = ir.unparen(ir.strip(ir.CONST_BODIES[n0["q"]]))
+        k_ += 1
+    return n0
+
+
 def _lit_chars(n):
+    n = _deconst(n)
     n = ir.strip(n)
     if n.get("k") == "lit" and n.get("lk") in ("str", "char"):
         v = n["v"]
@@ -249,6 +260,9 @@ class Extractor:
             return r if q.endswith("none_of") else plus(r)
         if q in ("nom::bytes::complete::take_while", "nom::bytes::complete::take_while1", "nom::character::complete::satisfy"):
             c = ir.strip(a[0])
+            if c.get("k") == "path" and c.get("r") != "local" and self.P.fn(c.get("q") or "") is not None:
+                fb = self.P.fn(c["q"])          # `take_while(is_identifier_part)`: the function is the predicate
+                c = {"k": "closure", "params": fb.get("params", []), "body": ir.fn_block(fb)}
             if c.get("k") != "closure":
                 raise Unextractable("%s with a predicate that is not a closure" % q.rsplit("::", 1)[-1])
             r = pred_class(c)
